@@ -17,6 +17,10 @@ CHECKS = {
    technique="runtime monitoring: bytes of the file written by write_rtf decoded by an independent byte-level RTF reader and compared with the input text",
    text="The real write_rtf writes documents whose body cells sweep the Unicode scalar values (thorough: all 1.1M minus controls/metacharacters, as single characters and packed 32 per cell; quick: U+0020..U+2FFF, boundary points and a stratified sample) with conversion on and off, and whose other text positions (header, title, subline, footnote/source as table and paragraph, page_by and subline_by headings, page header/footer) carry Latin-1, boundary and sampled characters; the file BYTES are decoded per RTF rules and must read back as the original text, with every \\u in the signed 16-bit range and its fallback skipped correctly.",
    note="trusted: reader's byte decoding (cp1252 for raw high bytes, as Word/LibreOffice); C0/C1 controls and raw \\ { } outside the quantifier"),
+ "C11": dict(cat="exploration", ref="5/C11",
+   technique="runtime monitoring: reader-decoded event lists (characters with script state, line breaks, page fields) vs an independent reference converter; emitter-level hook on TextContent._convert_special_chars for the verbatim clauses",
+   text="All 682 table commands x 9 context templates, all ordered pairs (thorough: triples) of the special sequences, random mixed texts and every component kind with default/overridden/per-cell text_convert are rendered by the real library; the rendered run is read back as an event list and must equal the output of a reference converter written from the statement. Unknown commands and conversion-off texts, which a reader cannot observe, are checked at a hook on the emitter's return value.",
+   note="trusted: reader; latex_to_char dictionary as data; one open known finding (blank after a comparison sign produced from a literal digraph, pinned by an existing test)"),
  "C12": dict(cat="exploration", ref="5/C12",
    technique="runtime monitoring: every colour/font reference of the parsed output resolved through the parsed colour/font tables; state hook on get_rtf_color_index",
    text="All 657 named colours (each at least once) and random palettes are placed on every component as text/background/border colour in single-section, multi-section and figure documents; every \\cf/\\cb/\\chcbpat/\\brdrcf index in the parsed output must lie inside the document's own colour table and, for sentinel-tagged elements, resolve to the RGB of the requested name (0 <=> default); every \\f must be a font-table entry of the requested number and mapped name. A hook checks that the colour set active at each index lookup is the encoding document's own.",
